@@ -111,3 +111,17 @@ def diverges_without_return(F, start_bb):
 
 def block_of_access(a):
     return a.bb
+
+
+# calls that return (a handle to) the very node they are applied to
+NODE_IDENTITY = (
+    "<incremental::node::Node as incremental::node::ErasedNode>::packed",
+    "<incremental::node::Node as incremental::node::ErasedNode>::erased",
+    "<incremental::node::Node as incremental::node::ErasedNode>::weak",
+    "<incremental::node::Node as incremental::node::Incremental<R>>::as_input",
+    "incremental::node::ErasedNode::packed", "incremental::node::ErasedNode::erased",
+    "incremental::node::ErasedNode::weak", "incremental::node::Incremental::as_input",
+    "incremental::node::Node::as_parent_dyn_ref",
+    "incremental::kind::expert::ExpertEdge::packed", "incremental::kind::expert::ExpertEdge::erased_input",
+    "incremental::node::Node::kind",
+)
